@@ -1,6 +1,7 @@
 package main
 
 import (
+	"math/big"
 	"bytes"
 	"context"
 	"errors"
@@ -97,7 +98,7 @@ func genMsg(rng *rand.Rand) (string, func() netty.Message) {
 		}
 		return strings.Join(parts, ",")
 	}
-	switch rng.Intn(9) {
+	switch rng.Intn(11) {
 	case 0:
 		b := pl(sz())
 		return "b:" + hexOrDash(b), func() netty.Message { return append([]byte(nil), b...) }
@@ -190,8 +191,18 @@ func genMsg(rng *rand.Rand) (string, func() netty.Message) {
 		n := rng.Intn(5)
 		var fr []frag
 		var parts []string
+		full := rng.Intn(5) == 0 // every read fills the whole 1024-byte chunk, the end of the stream is a read of its own
+		if full {
+			n = 1 + rng.Intn(3)
+		}
 		for i := 0; i < n; i++ {
 			f := frag{data: pl(sz() % 3000)}
+			if full {
+				f = frag{data: pl(1024)}
+				fr = append(fr, f)
+				parts = append(parts, hexOrDash(f.data))
+				continue
+			}
 			s := hexOrDash(f.data)
 			switch rng.Intn(8) {
 			case 0:
@@ -211,9 +222,49 @@ func genMsg(rng *rand.Rand) (string, func() netty.Message) {
 			}
 			return &scriptReader{script: cp}
 		}
+	case 8: // a packet type that embeds a buffer with the payload and writes a header in front of it
+		hdr, body := pl(1+rng.Intn(8)), pl(1+rng.Intn(300))
+		return "w:" + hexList([][]byte{hdr, body}), func() netty.Message {
+			return &pktBuf{Buffer: bytes.NewBuffer(append([]byte(nil), body...)), hdr: append([]byte(nil), hdr...)}
+		}
+	case 9: // many empty reads spread over the stream (a reader polling a slow source)
+		n := 100 + rng.Intn(80)
+		var fr []frag
+		var parts []string
+		for i := 0; i < n; i++ {
+			d := pl(1 + rng.Intn(4))
+			fr = append(fr, frag{}, frag{data: d})
+			parts = append(parts, "-", hexOrDash(d))
+		}
+		return "R:" + strings.Join(parts, ";"), func() netty.Message {
+			cp := make([]frag, len(fr))
+			for i := range fr {
+				cp[i] = frag{data: append([]byte(nil), fr[i].data...)}
+			}
+			return &scriptReader{script: cp}
+		}
 	default:
+		if rng.Intn(2) == 0 { // not a supported carrier although it has a Bytes() method
+			return "o", func() netty.Message { return big.NewInt(0x010203) }
+		}
 		return "o", func() netty.Message { return 42 }
 	}
+}
+
+// pktBuf: the stream it stands for (WriteTo) is header + payload; Bytes(), promoted from the embedded
+// buffer, is the payload alone
+type pktBuf struct {
+	*bytes.Buffer
+	hdr []byte
+}
+
+func (p *pktBuf) WriteTo(w io.Writer) (int64, error) {
+	n, err := w.Write(p.hdr)
+	if err != nil {
+		return int64(n), err
+	}
+	m, err := w.Write(p.Buffer.Bytes())
+	return int64(n + m), err
 }
 
 // deferExec holds the sender until the harness releases it (a stalled peer / slow executor).
@@ -325,6 +376,9 @@ func runC14(seed int64, count int) {
 				}
 			}
 			emit("C14 head %s %s %s %s %s", mode, spec, status, hexOrDash(tr.Written()), sizes)
+		}
+		if _, isPkt := mk().(*pktBuf); isPkt {
+			continue // the conversion helpers are specified for the plain carriers only
 		}
 		// helpers
 		if b, err := utils.ToBytes(mk()); err != nil {
